@@ -71,7 +71,13 @@ Consume ==
     /\ LET e == Steps[l] IN
          IF ENABLED Strict(e)
          THEN Strict(e) /\ driftAt' = driftAt
-         ELSE Generic(e) /\ driftAt' = IF driftAt = 0 /\ ~Unmodelled(e) THEN l ELSE driftAt
+         ELSE /\ Generic(e)
+              /\ driftAt' = IF driftAt = 0 /\ ~Unmodelled(e) THEN l ELSE driftAt
+              \* diagnostics: what the specification allows here (work tree part and index)
+              /\ (Unmodelled(e) \/ driftAt # 0 \/
+                  PrintT(<<"EXPECT", Traces[tid].tid, l, Enabled(e.op),
+                           {[r |-> x.r, I |-> x.I, wt |-> [p \in {q \in DOMAIN x.F : InWT(q)} |-> x.F[p]]]
+                              : x \in Results(e.op, TreeOf(e.tree))}>>))
     /\ l' = l + 1
     /\ LET c == Clause IN
          /\ verdict' = IF verdict = "ok" THEN c ELSE verdict
